@@ -37,22 +37,37 @@ def zone_bytes(z, version=1):
                           version=version)
 
 
-def make_archive(members, links=(), metadata=None):
+def make_archive(members, links=(), metadata=None, order="links_last"):
     """tar.gz with regular members {name: bytes}, link members
-    [(name, target, 'sym'|'hard')] and optional METADATA json bytes."""
+    [(name, target, 'sym'|'hard')] and optional METADATA json bytes.
+    order: where link entries stand relative to their targets -- a tar made
+    from a symlink-based zoneinfo tree in name order has links BEFORE their
+    targets, which is legal: 'links_last' | 'links_first' | 'sorted' (by
+    name) | 'reversed' (by name, descending)."""
+    entries = []
+    for name in sorted(members):
+        entries.append((name, "file", members[name]))
+    for name, target, kind in links:
+        entries.append((name, kind, target))
+    if order == "links_first":
+        entries.sort(key=lambda e: (e[1] == "file", e[0]))
+    elif order == "sorted":
+        entries.sort(key=lambda e: e[0])
+    elif order == "reversed":
+        entries.sort(key=lambda e: e[0], reverse=True)
     bio = io.BytesIO()
     with tarfile.open(fileobj=bio, mode="w:gz") as tf:
-        for name in sorted(members):
+        for name, kind, payload in entries:
             ti = tarfile.TarInfo(name)
-            ti.size = len(members[name])
             ti.mtime = 0
-            tf.addfile(ti, io.BytesIO(members[name]))
-        for name, target, kind in links:
-            ti = tarfile.TarInfo(name)
-            ti.type = tarfile.SYMTYPE if kind == "sym" else tarfile.LNKTYPE
-            ti.linkname = target
-            ti.mtime = 0
-            tf.addfile(ti)
+            if kind == "file":
+                ti.size = len(payload)
+                tf.addfile(ti, io.BytesIO(payload))
+            else:
+                ti.type = tarfile.SYMTYPE if kind == "sym" \
+                    else tarfile.LNKTYPE
+                ti.linkname = payload
+                tf.addfile(ti)
         if metadata is not None:
             ti = tarfile.TarInfo("METADATA")
             ti.size = len(metadata)
